@@ -14,6 +14,7 @@ package main
 import (
 	"context"
 	"fmt"
+	"strings"
 	"sync"
 	"sync/atomic"
 	"time"
@@ -125,6 +126,11 @@ func runScenario(sc scenario) {
 		opt.ObjQueueMax = 4
 	}
 	cl := rpcw.NewDirect([]string{w.addr}, opt)
+	if sc.ID%2 == 0 && strings.HasPrefix(sc.CloseKind, "notice") {
+		// a proxy with a push callback registered (a push client) must honour the server's close
+		// notification like any other proxy
+		cl.SP.SetPushCallback(func([]byte) {})
+	}
 	wit := func(extra map[string]interface{}) map[string]interface{} {
 		m := map[string]interface{}{"scenario": sc}
 		for k, v := range extra {
